@@ -1,10 +1,13 @@
 ------------------------- MODULE Gen_DiscoveryServer -------------------------
-(* spec -> code: every interface list x every maximal sequence boot, restart*, shutdown *)
+(* spec -> code: every interface list x every maximal sequence boot, restart*, shutdown, *)
+(* with a fresh choice at every (re)start of which interfaces come up                    *)
 EXTENDS DiscoveryServer, Json
 VARIABLE hist
-Step(k) == [act |-> k, exp |-> [listening |-> last'.listening, answers |-> last'.answers, up |-> phase' = "up"]]
+Step(k) == [act |-> k, up |-> up',
+            exp |-> [listening |-> IF phase' = "up" THEN Tcp(cfg) \cap up' ELSE {},
+                     answers |-> last'.answers, serving |-> phase' = "up"]]
 GInit == WInit /\ hist = <<>>
-GNext == \/ Boot /\ hist' = <<[act |-> "boot", cfg |-> cfg, exp |-> Step("boot").exp]>>
+GNext == \/ Boot /\ hist' = <<[act |-> "boot", cfg |-> cfg, up |-> up', exp |-> Step("boot").exp]>>
          \/ Restart /\ hist' = Append(hist, Step("restart"))
          \/ Shutdown /\ hist' = Append(hist, Step("shutdown"))
 GSpec == GInit /\ [][GNext]_<<wvars, hist>>
